@@ -249,10 +249,23 @@ namespace bloch::runtime {
         if (norm1 > 0.0 && norm0 > 0.0) {
             std::uniform_real_distribution<double> dist(0.0, 1.0);
             double r = dist(rng);
+#ifdef BLOCH_VERIF
+            {
+                double scripted = 0.0;
+                if (verif::hooks().draw && verif::hooks().draw(scripted))
+                    r = scripted;
+                verifScope.ev.p1 = norm1 / (norm0 + norm1);
+                verifScope.ev.r = r;
+                verifScope.ev.drew = true;
+            }
+#endif
             branch = r * (norm0 + norm1) < norm1 ? 1 : 0;
         } else if (norm1 > 0.0) {
             branch = 1;
         }
+#ifdef BLOCH_VERIF
+        verifScope.ev.outcome = branch;
+#endif
         double weight = branch ? norm1 : norm0;
         double inv = weight > 0.0 ? 1.0 / std::sqrt(weight) : 1.0;
         for (size_t i = 0; i < m_state.size(); ++i) {
